@@ -286,6 +286,16 @@ package tengo
 //@   loop 0 step getlp_plain{C11}: continued && op == parser.OpGetLocalPtr && !is(slot, *ObjectPtr)
 //@              ==> is(v.stack[sp0], *ObjectPtr) && freshit(v.stack[sp0]) && v.stack[bp+o8] == v.stack[sp0]
 //@                  && *v.stack[sp0].(*ObjectPtr).Value == slot
+// --- C11: selector assignment reaches the same abstract cell in all three families
+//@   loop 1 assigns selectors[*]
+//@   loop 8 assigns selectors[*]
+//@   loop 10 assigns selectors[*]
+//@   loop 0 step setsg_target{C11}: op == parser.OpSetSelGlobal ==> same(callarg(indexAssign, 0), it0(v.globals[o16]))
+//@   loop 0 step setsg_value{C11}: op == parser.OpSetSelGlobal ==> same(callarg(indexAssign, 1), it0(v.stack[v.sp - int(v.curInsts[v.ip+4]) - 1]))
+//@   loop 0 step setsl_target{C11}: op == parser.OpSetSelLocal ==> same(callarg(indexAssign, 0), ite(is(slot, *ObjectPtr), it0(*slot.(*ObjectPtr).Value), slot))
+//@   loop 0 step setsl_value{C11}: op == parser.OpSetSelLocal ==> same(callarg(indexAssign, 1), it0(v.stack[v.sp - int(v.curInsts[v.ip+3]) - 1]))
+//@   loop 0 step setsf_target{C11}: op == parser.OpSetSelFree ==> same(callarg(indexAssign, 0), it0(*frees[o8].Value))
+//@   loop 0 step setsf_value{C11}: op == parser.OpSetSelFree ==> same(callarg(indexAssign, 1), it0(v.stack[v.sp - int(v.curInsts[v.ip+3]) - 1]))
 // --- C14: sentinel and host errors stay recognisable (identity preserved at every error exit)
 //@   loop 0 step err_binop{C14}: exited && op == parser.OpBinaryOp && callresult(BinaryOp, 1) != nil && callresult(BinaryOp, 1) != ErrInvalidOperator
 //@              ==> v.err == callresult(BinaryOp, 1)
@@ -308,6 +318,21 @@ package tengo
 //@              ==> nextop == parser.OpReturn || (nextop == parser.OpPop && nextop2 == parser.OpReturn)
 //@   loop 0 step tail_frame{C16}: continued && op == parser.OpCall && v.framesIndex == it0(v.framesIndex) && v.ip == -1
 //@              ==> v.curFrame == it0(v.curFrame) && v.curInsts == it0(v.curInsts)
+//@   loop 0 let callee = v.stack[v.sp-1-int(v.curInsts[v.ip+2])]
+//@   loop 0 let nargs = int(v.curInsts[v.ip+2])
+//@   loop 0 step tail_no_overflow{C16,C06}: exited && op == parser.OpCall && v.curInsts[v.ip+3] == 0 && is(callee, *CompiledFunction)
+//@                  && callee == v.curFrame.fn && !callee.(*CompiledFunction).VarArgs && nargs == callee.(*CompiledFunction).NumParameters
+//@                  && (nextop == parser.OpReturn || (nextop == parser.OpPop && nextop2 == parser.OpReturn))
+//@              ==> v.err != ErrStackOverflow
+//@   loop 0 step tail_params{C16}: continued && op == parser.OpCall && v.framesIndex == it0(v.framesIndex) && v.ip == -1
+//@                  && v.curInsts[it0(v.ip)+3] == 0 && is(callee, *CompiledFunction) && !callee.(*CompiledFunction).VarArgs
+//@                  && bp + nargs <= sp0 - nargs && 0 <= nargs
+//@              ==> v.sp == sp0 - nargs - 1 && (forall q in 0..nargs :: v.stack[bp+q] == it0(v.stack[v.sp-nargs+q]))
+//@   loop 7 invariant idx{C16}: 0 <= p && v.sp == pre(v.sp) && v.curFrame == pre(v.curFrame) && v.curFrame.basePointer == pre(v.curFrame.basePointer)
+//@   loop 7 invariant copied{C16}: pre(v.curFrame.basePointer + numArgs <= v.sp - numArgs) ==>
+//@                  forall q in 0..p :: v.stack[v.curFrame.basePointer+q] == pre(v.stack[v.sp-numArgs+q])
+//@   loop 7 invariant source_kept{C16}: pre(v.curFrame.basePointer + numArgs <= v.sp - numArgs) ==>
+//@                  forall q in p..numArgs :: v.stack[v.sp-numArgs+q] == pre(v.stack[v.sp-numArgs+q])
 //@   loop 0 step call_frame{C16,C02}: continued && op == parser.OpCall && v.framesIndex == it0(v.framesIndex) + 1
 //@              ==> v.ip == -1 && v.curFrame == &v.frames[it0(v.framesIndex)] && it0(v.curFrame).ip == it0(v.ip) + 3
 //@                  && v.curInsts == v.curFrame.fn.Instructions && v.sp == v.curFrame.basePointer + v.curFrame.fn.NumLocals
